@@ -55,7 +55,10 @@ def functions():
 def bounds(tier, prop):
     return {"interfaces": "0..4 values, arbitrary reals (any order, ties)", "shooting moves": "len in k-1..k+1, all sh/wf vectors",
             "workers": "symbolic integer >= 1", "cap / lambda_-1": "absent or arbitrary real",
-            "outside": "more than 4 interfaces; gromacs input_path rule; setup_config's TOML reading"}
+            "engines": "single default engine (defined or not); ensemble_engines layouts over 3 names (2 ensembles: 1..2 names each, "
+                       "3 ensembles: 1 name each), every name undefined or one of 5 definitions (turtlemd without input_path, cp2k, "
+                       "3 gromacs variants sharing / not sharing input_path)",
+            "outside": "more than 4 interfaces; engine sections without a class; setup_config's TOML reading"}
 
 
 def instances(tier, prop):
@@ -82,11 +85,30 @@ def instances(tier, prop):
         for quantis, engine in ((True, True), (False, False)):
             out.append({"k": k, "moves": ["sh"] * k, "cap": False, "lm1": quantis, "quantis": quantis, "engine": engine,
                         "_cost": (k + 1) ** (k + 1)})
+    # multi-engine layouts (simulation.ensemble_engines): which names an ensemble lists is the instance, what each name is
+    # (undefined / defined with one of several classes and input paths) is a nondeterministic choice per name
+    names = ["engA", "engB", "engC"]
+    per_ens = [[a] for a in names] + [[a, b] for a in names for b in names if a != b]
+    for lay in itertools.product(per_ens, repeat=2):
+        out.append({"k": 2, "moves": ["sh", "sh"], "cap": False, "lm1": False, "quantis": False, "engine": True,
+                    "elay": [list(e) for e in lay], "_cost": 300})
+    for lay in itertools.product([[a] for a in names], repeat=3):
+        out.append({"k": 3, "moves": ["sh"] * 3, "cap": False, "lm1": False, "quantis": False, "engine": True,
+                    "elay": [list(e) for e in lay], "_cost": 300})
     return out
 
 
+ENGINE_KINDS = [None,                                                          # not defined
+                {"class": "turtlemd", "timestep": 0.1},                      # no input_path at all
+                {"class": "cp2k", "input_path": "p1", "timestep": 0.5},
+                {"class": "gromacs", "input_path": "p1", "gmx": "gmx"},
+                {"class": "gromacs", "input_path": "p2", "gmx": "gmx"},
+                {"class": "gromacs", "input_path": "p1", "gmx": "gmx_mpi"}]  # same input_path, other settings
+
+
 EXPECT = ["verdict:rejected", "verdict:accepted", "init:picked", "reject:unsorted", "reject:duplicate", "reject:workers",
-          "reject:moves", "reject:cap-outside", "reject:lm1", "reject:engine", "reject:too-few-interfaces", "init:wf-weights"]
+          "reject:moves", "reject:cap-outside", "reject:lm1", "reject:engine", "reject:too-few-interfaces", "init:wf-weights",
+          "engines:undefined-name-rejected", "engines:mixed-classes-accepted", "engines:input-path-rule"]
 
 
 def _path(orders, pn):
@@ -126,6 +148,22 @@ def run_instance(ctx, sh):
     }
     if sh["engine"]:
         cfg["engine"] = {"class": "stub"}
+    undefined_used = False
+    if sh.get("elay"):
+        cfg["simulation"]["ensemble_engines"] = [list(e) for e in sh["elay"]]
+        used = []
+        for e in sh["elay"]:
+            for nme in e:
+                if nme not in used:
+                    used.append(nme)
+        kinds = {}
+        for nme in used:
+            kd = ENGINE_KINDS[ctx.choice(len(ENGINE_KINDS), f"kind-of-{nme}")]
+            kinds[nme] = kd
+            if kd is None:
+                undefined_used = True
+            else:
+                cfg[nme] = dict(kd)
     # ---- the property's list, as a predicate (each clause forks on the symbolic values)
     reasons = []
     if k < 2:
@@ -152,6 +190,8 @@ def run_instance(ctx, sh):
         reasons.append("lm1")
     if not sh["engine"] and k >= 1:
         reasons.append("engine")
+    if undefined_used:
+        reasons.append("engine")
     # ---- the real verdict
     verdict = None
     try:
@@ -166,6 +206,13 @@ def run_instance(ctx, sh):
         core.reraise_if_proxy_limitation(e)
         verdict = "crashed:" + repr(e)
     ctx.cover("verdict:" + verdict.split(":")[0])
+    if sh.get("elay"):
+        if undefined_used and verdict == "rejected":
+            ctx.cover("engines:undefined-name-rejected")
+        if not undefined_used and verdict == "accepted" and len({kd["class"] for kd in kinds.values()}) > 1:
+            ctx.cover("engines:mixed-classes-accepted")
+        if not undefined_used and verdict == "rejected" and "input_path" in msg:
+            ctx.cover("engines:input-path-rule")
     for r in reasons:
         if verdict == "rejected":
             ctx.cover("reject:" + r)
